@@ -2,6 +2,7 @@
 
 import logging
 import os
+import shutil
 import time
 from datetime import datetime
 
@@ -939,6 +940,12 @@ class REPEX_state:
                         os.getcwd(), self.config["simulation"]["load_dir"]
                     ),
                 }
+                # traj_num was never used by a completed step: anything stored
+                # under it was left by a step that crashed before the restart
+                # file was updated, and would otherwise stay there as orphans.
+                stale = os.path.join(data["dir"], str(traj_num))
+                if os.path.isdir(stale):
+                    shutil.rmtree(stale)
                 out_traj = self.pstore.output(self.cstep, data)
                 self.traj_data[traj_num] = {
                     "frac": np.zeros(self.n, dtype="longdouble"),
